@@ -7,6 +7,7 @@ written from the property text.  The tick's 30 s inactivity handling is
 interpreted the same way."""
 from ..common import Report, finish
 from ..facts import AnalysisBroken
+from ..facts import WORD as W
 from ..terms import C, ZERO, INF, short, Dom, is_const
 from ..engine import run_entry, mk_obj
 from ..absint import Val
@@ -154,7 +155,7 @@ def tick_checks(rep, prog, A, roles):
         st.tags['clkfloor.s'] = (lt,)
         # mapping->extra must point to a mapping_state
         ms = mk_obj(st, 'in:mstate', mrec.size, kind='heap', default='sym')
-        a.cells[((), A.field_off('extra'))] = (8, ('ptr', 'in:mstate', ZERO))
+        a.cells[((), A.field_off('extra'))] = (W, ('ptr', 'in:mstate', ZERO))
         D = ('sym', 'deadline', 1, 1 << 62)
         ms.cells[((), mrec.field('inactive_timeout_ts')[1])] = (8, D)
         tb = mk_obj(st, 'in:sessions', trec.size, kind='heap', default='sym')
